@@ -59,6 +59,8 @@ def plan(tier, seed):
         shards.append(("cells", tier, ci, min(len(cells), ci + step)))
     for li in range(len(HIST_LATTICES)):
         shards.append(("hist", li, 3 if tier == "quick" else 4))
+    for k_ in range(len(DEEP)):
+        shards.append(("deep", k_))
     k = seed % len(shards)
     return shards[k:] + shards[:k]
 
@@ -67,6 +69,28 @@ HIST_LATTICES = [([4.04, 4.04, 4.04, 90, 90, 90], "F"), ([2.87, 2.87, 2.87, 90, 
                  ([3.0, 4.0, 5.0, 70, 80, 110], "P"), ([5.0, 5.0, 5.0, 60, 60, 60], "P"), ([3.0, 4.0, 5.0, 90, 100, 90], "C"),
                  ([5.0, 5.0, 13.0, 90, 90, 120], "R"), ([4.0, 4.0, 5.5, 90, 90, 90], "A")]
 HIST_LIMITS = (0.41, 0.63, 0.97)
+
+
+# one long axis and a high limit: Miller indices up to +-192 along it (the library documents |h| < 200)
+DEEP = [([30.0, 2.0, 2.0, 90, 90, 90], "P", 4.3), ([30.0, 2.0, 2.0, 90, 90, 90], "I", 6.4), ([2.0, 30.0, 2.2, 90, 90, 90], "P", 5.5), ([2.0, 2.0, 30.0, 90, 90, 90], "F", 6.4),
+        ([2.5, 2.5, 30.0, 90, 90, 120], "P", 4.4), ([2.0, 2.3, 29.0, 80, 75, 100], "P", 6.0)]
+
+
+def _run_deep(desc):
+    from ImageD11 import unitcell as uc_mod
+    sh = Shard()
+    cell, sym, dsmax = DEEP[desc[1]]
+    case = {"cell": cell, "sym": sym, "dsmax": dsmax, "kind": "deep"}
+    r = check_list(sh, uc_mod, cell, sym, dsmax, case)
+    if r is not None:
+        hmax = max(max(abs(int(x)) for x in p[1]) for p in r[0])
+        sh.counters["max_miller_index"] = hmax
+        check_rings(sh, uc_mod, cell, sym, dsmax, 1e-3, dict(case, ringtol=1e-3))
+    sh.evaluations += 2
+    sh.nontrivial += 2
+    sh.outcomes.add(("deep", desc[1]))
+    sh.sample(case, limit=1)
+    return sh
 
 
 def _run_hist(desc):
@@ -89,7 +113,11 @@ def _run_hist(desc):
             oracle[lim] = w
     for d in range(1, depth + 1):
         for seq in itertools.product(range(len(ops)), repeat=d):
-            uc = uc_mod.unitcell(cell, sym)
+            # built from an array the caller goes on using: the object must own its cell
+            arr = np.array(cell, float)
+            uc = uc_mod.unitcell(arr, sym)
+            arr[:3] *= 0.3
+            arr[3:] = 90.0
             names = []
             bad = False
             for oi in seq:
@@ -219,6 +247,8 @@ def check_rings(sh, uc_mod, cell, sym, limit, tol, case):
 def run_shard(desc):
     if desc[0] == "hist":
         return _run_hist(desc)
+    if desc[0] == "deep":
+        return _run_deep(desc)
     _, tier, c0, c1 = desc
     from ImageD11 import unitcell as uc_mod
     sh = Shard()
